@@ -71,7 +71,9 @@ class ExtractionFailed(Exception):
 
 def ensure_factgen():
     exe = os.path.join(VERIF, "factgen/target/debug/factgen")
-    if not os.path.exists(exe):
+    srcs = [os.path.join(VERIF, "factgen/src", n) for n in ("main.rs", "walk.rs", "json.rs")]
+    stale = not os.path.exists(exe) or any(os.path.getmtime(p) > os.path.getmtime(exe) for p in srcs if os.path.exists(p))
+    if stale:
         r = subprocess.run(["cargo", "build", "--offline"], cwd=os.path.join(VERIF, "factgen"),
                            capture_output=True, text=True)
         if r.returncode != 0:
